@@ -483,7 +483,7 @@ func simplifyWindows(p *Plan) []*Plan {
 func init() {
 	register(&Profile{
 		ID: "C02", Name: "windows", Level: "exploration",
-		Rule: "each run: 1-3 deliveries of a foreign-IdP response (1-2 assertions, 1-3 confirmations, 7 lexical time forms, 3 signing layouts, plaintext/encrypted, xml/post/artifact entry) whose every bound (response/artifact/assertion IssueInstant, NotBefore, NotOnOrAfter, each confirmation) is placed at a drawn position {far-in,+1ms,-1ms,far-out,edge,half-tolerance in/out} relative to SP-now = issue time + network delay + SP clock skew, with MaxIssueDelay/MaxClockSkew drawn per run; non-trivial = at least one bound is not far inside; distinct = distinct abstract event log (entry, form, position classes, expectation, outcome)",
+		Rule: "each run: 1-3 deliveries of a foreign-IdP response (1-2 assertions, 1-3 confirmations, 7 lexical time forms, 3 signing layouts, plaintext/encrypted, xml/post/artifact entry) whose every bound (response/artifact/assertion IssueInstant, NotBefore, NotOnOrAfter, each confirmation) is placed at a drawn position {far-in,+1ms,-1ms,far-out,edge,half-tolerance in/out} relative to SP-now = issue time + network delay + SP clock skew, with MaxIssueDelay/MaxClockSkew drawn per run; non-trivial = at least one bound is not far inside; distinct = distinct abstract event log (entry, form, position classes, expectation, outcome); every other run enumerates the lattice {far-in,+1ms,-1ms,far-out}^6 over the six bounds of a one-assertion two-confirmation response systematically (coverage.lattice_coverage); confirmations carry bearer / holder-of-key / sender-vouches methods; far-out bounds include the verbatim year-1 instant",
 		Gen:  genWindows, Exec: execWindows, Simplify: simplifyWindows,
 		RunsQuick: 6000, RunsThorough: 600000,
 		Assumptions: []string{"instants are exact milliseconds (the library rounds to ms)", "exact equality with a bound is a declared don't-care"},
